@@ -1,6 +1,7 @@
 pub mod c01;
 pub mod c02;
 pub mod c03;
+pub mod c04;
 pub mod c08;
 pub mod c09;
 pub mod c11;
@@ -18,6 +19,7 @@ pub fn all() -> Vec<Box<dyn Prop>> {
         Box::new(c01::C01),
         Box::new(c02::C02),
         Box::new(c03::C03),
+        Box::new(c04::C04),
         Box::new(c08::C08),
         Box::new(c09::C09),
         Box::new(c11::C11),
